@@ -101,12 +101,12 @@ def sample_module(ids):
 SANITY = ('SubsequenceFormsAgree', 'DeviationsAreRejected', 'PairDeviationsAreRejected')
 
 
-def mc_cfg(emit=False, sanity=True, **kw):
+def mc_cfg(emit=False, sanity=True, grid=False, **kw):
     """cfg text of MC_Routing with the given constants; emit=True: generation run (only the Emit 'invariant');
     sanity=False: only the clauses of the properties and JudgeAcceptsModel (the model-level sanity invariants of the
     judgement are checked exhaustively on 3 sites and on the sampled 4-site meshes)"""
     vals = dict(NSites=4, UseSample='FALSE', OneSrcDst='TRUE', Thin=1, LinePer=6, TwinPer=1, PairPer=8, TriplePer=2,
-                OverlapPer=2, GroupsExhaustive='FALSE', Doubling='FALSE', PairsFirstAll='TRUE', Salt=0)
+                OverlapPer=2, GroupsExhaustive='FALSE', Doubling='FALSE', PairsFirstAll='TRUE', GridCols=0, Salt=0)
     for k, v in kw.items():
         if k not in vals:
             raise Machinery(f'unknown MC_Routing constant {k}')
@@ -118,6 +118,10 @@ def mc_cfg(emit=False, sanity=True, **kw):
         key = s.split('=')[0].strip() if '=' in s and '<-' not in s else None
         if key in vals:
             out.append(f'  {key} = {vals[key]}')
+        elif grid and s.startswith('Graphs <-'):
+            out.append('  Graphs <- MCGridGraphs')
+        elif grid and s.startswith('BatchesOf <-'):
+            out.append('  BatchesOf <- MCGridBatchesOf')
         elif s.startswith('INVARIANT') and (emit or (not sanity and s.split()[-1] in SANITY)):
             continue
         else:
@@ -155,9 +159,9 @@ def share(n):
     return max(1, nworkers() // n)
 
 
-def generate(chk, ids, tag, workers=None, **consts):
+def generate(chk, ids, tag, workers=None, grid=False, **consts):
     """run the generation configuration of MC_Routing on the given mesh ids; returns {mesh id: job}"""
-    r = tlc.run('MC_Routing', cfg_text=mc_cfg(emit=True, UseSample=True, **consts), workers=workers,
+    r = tlc.run('MC_Routing', cfg_text=mc_cfg(emit=True, grid=grid, UseSample=True, **consts), workers=workers,
                 extra_modules={'RoutingSample': sample_module(ids)}, timeout=1800, tag=tag)
     if not r.ok:
         raise Machinery(f'generation run {tag} failed: {r.error or r.violated}\n{r.out[-2000:]}')
@@ -226,6 +230,15 @@ def kind(b):
 
 
 # --------------------------------------------------------------------------------------------------- real-code side
+def innermost_gnpy_frame(e):
+    """'file.py:function' of the deepest frame of the traceback that lies in gnpy (names the class of a crash)"""
+    where = 'outside-gnpy'
+    for fr in traceback.extract_tb(e.__traceback__):
+        if '/gnpy/' in fr.filename:
+            where = f'{fr.filename.rsplit("/", 1)[-1]}:{fr.name}'
+    return where
+
+
 class Timeout(Exception):
     pass
 
@@ -444,7 +457,7 @@ class NetBench:
             return dict(skip='timeout')
         except Exception as e:                                    # noqa: an exception on a valid batch is a finding
             return dict(exc=f'{type(e).__name__}: {e}', tb=traceback.format_exc()[-1500:], reqs=ev['reqs'],
-                        groups=ev['groups'])
+                        groups=ev['groups'], where=innermost_gnpy_frame(e))
         finally:
             if limit:
                 signal.alarm(0)
@@ -467,18 +480,20 @@ class NetBench:
         return ev
 
 
-def mesh_json(n, arcs, variant=0):
+def mesh_json(n, arcs, variant=0, passive=True):
     """legacy topology JSON of a generated mesh: Transceiver + Roadm per site; per arc <<a, b, k>> one fibre of km
     kilometres, or - for a 0 km PATCH - one amplifier only (two ROADMs back to back: an OMS without any fibre).
     Topology files describe a fibre link in several ways; which one an arc gets is drawn from variant, the graph is
     the same:   0 the bare fibre (auto-design equips it)        1 the fibre followed by an amplifier written in the file
-                2 a RamanFiber span with its amplifier (spans that auto-design does not split: <= 140 km)
+                2 a RamanFiber span with its amplifier (spans that auto-design does not split: <= 140 km; in one
+                  mesh out of eight, elsewhere as 1)
                 3 a PASSIVE link, Fused - fibre - Fused: no amplifier at all in the OMS (50 km links only)"""
     data = line_or_mesh_json([str(k) for k in range(1, n + 1)], [])
     line_arc = {}
     amp = {'type': 'Edfa', 'type_variety': 'std_medium_gain',
            'operational': {'gain_target': None, 'tilt_target': 0, 'out_voa': None}}
     pumps = [{'power': 0.2, 'frequency': 205e12, 'propagation_direction': 'counterprop'}]
+    amplified = False
     for a, b, km, k in arcs:
         tag = f'({a} -> {b})' + (' second' if k else '')
         style = (variant // 7 + 3 * a + 5 * b + k) % 4
@@ -486,23 +501,29 @@ def mesh_json(n, arcs, variant=0):
         if km > 0:
             fibre = dict(uid=f'fiber {tag}', type='Fiber', type_variety='SSMF',
                          params={'length': km, 'length_units': 'km', 'loss_coef': 0.2, 'con_in': None, 'con_out': None})
-            if style == 2 and km <= 140:
+            if style == 2 and km <= 140 and variant % 8 == 1:       # (one mesh in eight: designing Raman spans is slow)
                 fibre.update(type='RamanFiber', operational={'temperature': 283, 'raman_pumps': pumps})
+                fibre['params'].update(con_in=0.5, con_out=0.5)      # a RamanFiber needs its connector losses
                 chain += [fibre, dict(amp, uid=f'amplifier after fiber {tag}')]
-            elif style == 3 and km <= 50:
+            elif style == 3 and km <= 50 and passive:
                 chain += [dict(uid=f'fused before fiber {tag}', type='Fused', params={'loss': 0}), fibre,
                           dict(uid=f'fused after fiber {tag}', type='Fused', params={'loss': 0})]
-            elif style == 1:
+            elif style in (1, 2):
                 chain += [fibre, dict(amp, uid=f'amplifier after fiber {tag}')]
             else:
                 chain.append(fibre)
         else:
             chain.append(dict(amp, uid=f'patch edfa {tag}'))
+        amplified = amplified or not any(e['type'] == 'Fused' for e in chain)
         data['elements'] += chain
         hops = [f'roadm {a}'] + [e['uid'] for e in chain] + [f'roadm {b}']
         data['connections'] += [{'from_node': u, 'to_node': v} for u, v in zip(hops, hops[1:])]
         for e in chain:
             line_arc[e['uid']] = (a, b, k)
+    if passive and not amplified:
+        # every link would be passive: the network would hold no amplifier at all, which build_oms_list does not
+        # accept (spectrum matters, not routing) - write the links the usual way instead
+        return mesh_json(n, arcs, variant, passive=False)
     return data, line_arc
 
 
@@ -523,14 +544,21 @@ def run_mesh_job(job):
         return None, [dict(stage='design', mesh=job['mesh'], exc=f'{type(e).__name__}: {e}',
                            tb=traceback.format_exc()[-1500:])]
     evs, meta, excs = [], [], []
+    skipped = 0
     for k, b in enumerate(job['batches']):
-        ev = bench.run_batch(b, bidir=True, pick=job['mesh'] + k)
+        # lattices: the search of the real code may be long (hundreds of candidate routes): time limit, then unjudged
+        ev = bench.run_batch(b, bidir=True, pick=job['mesh'] + k + job.get('offset', 0), limit=20 if job['n'] >= 10 else None)
+        if 'skip' in ev:
+            skipped += 1
+            continue
         if 'exc' in ev:
-            excs.append(dict(stage='routing', mesh=job['mesh'], batch=b, exc=ev['exc'], tb=ev['tb']))
+            excs.append(dict(stage='routing', mesh=job['mesh'], batch=b, exc=ev['exc'], tb=ev['tb'],
+                             where=ev.get('where', '?')))
             continue
         evs.append(ev)
         meta.append(b)
-    trace = dict(name=f'mesh{job["n"]}:{job["mesh"]}', n=job['n'], links=job['links'], opt=1, tol=0, ev=evs,
+    trace = dict(name=f'mesh{job["n"]}:{job["mesh"]}' + (f':{job["offset"]}' if 'offset' in job else ''), n=job['n'],
+                 links=job['links'], opt=1, tol=0, ev=evs, skipped=skipped,
                  dev=int(round(bench.maxdev * 1e9)))            # in 1e-9 km
     return (trace, meta), excs
 
@@ -639,9 +667,9 @@ def report_exceptions(chk, excs, origin):
             chk.violation(f'{origin}|exception-in-design|{x["exc"].split(":")[0]}', x)
         else:
             b = x['batch']
-            chk.violation(f'{origin}|exception|{kind(b)}|inc={"/".join(shape(r) for r in b["reqs"])}|'
-                          f'{x["exc"].split(":")[0]}', dict(mesh=x['mesh'], batch={k: b[k] for k in ('reqs', 'groups')},
-                                                            exception=x['exc'], traceback=x['tb']))
+            chk.violation(f'{origin}|exception|{x["exc"].split(":")[0]}|{x.get("where", "?")}',
+                          dict(mesh=x['mesh'], kind=kind(b), include_lists=[shape(r) for r in b['reqs']],
+                               batch={k: b[k] for k in ('reqs', 'groups')}, exception=x['exc'], traceback=x['tb']))
 
 
 def b2(chk, pid, jobs, origin='B2', keep=lambda b: True, extra=None):
@@ -649,6 +677,9 @@ def b2(chk, pid, jobs, origin='B2', keep=lambda b: True, extra=None):
     extra = (traces, metas) recorded elsewhere (B3): judged in the same TLC pass, reported under 'B3'"""
     jobs = [dict(j, batches=[b for b in j['batches'] if keep(b)]) for j in jobs.values()]
     jobs = [j for j in jobs if j['batches']]
+    # a lattice serves few requests per process: its batches are spread over several jobs
+    jobs = [j for j in jobs if j['n'] < 10] + [dict(j, batches=j['batches'][o:o + 3], offset=o)
+                                                for j in jobs if j['n'] >= 10 for o in range(0, len(j['batches']), 3)]
     import time
     t0 = time.time()
     out = replay_jobs(jobs)
@@ -672,6 +703,7 @@ def b2(chk, pid, jobs, origin='B2', keep=lambda b: True, extra=None):
     stats = dict(meshes=len(traces), batches=0, requests=0, conform=0, exceptions=nexc, verdicts={}, kinds={},
                  errors=0, strong=0, noweak=0, replay_s=round(t_replay, 1), judgement_s=round(time.time() - t0, 1))
     stats['max_hop_length_deviation_1e-9km'] = max([t.get('dev', 0) for t in traces] or [0])
+    stats['skipped_timeouts'] = sum(t.get('skipped', 0) for t in traces)
     for t in traces:
         m = metas[t['name']]
         ok = report(chk, pid, t, m, verdicts[t['name']], origin)
@@ -684,6 +716,8 @@ def b2(chk, pid, jobs, origin='B2', keep=lambda b: True, extra=None):
             stats['errors'] += ev['err']
             stats['strong'] += b['info'].get('strong', 0)
             stats['noweak'] += int(bool(b['groups']) and not b['info'].get('weak', 0))
+            stats['routes_behind_100_candidates'] = stats.get('routes_behind_100_candidates', 0) + \
+                sum(1 for x in b['info'].get('shorter', []) if x >= 100)
             for v in b['info'].get('verdict', []):
                 stats['verdicts'][v] = stats['verdicts'].get(v, 0) + 1
             chk.case((t['name'], json.dumps([b['reqs'], b['groups']])),
